@@ -349,6 +349,7 @@ theorem pushNone_complete : ∀ (b : B) (dt : DataType) (n : Bool) (md : Metadat
     refine ⟨.dictionary p (.leaf p' (.int t) v' (vals' ++ [0])) vals index, ?_, by simp only [room, keyRoom]⟩
     rw [pushNone]
     simp only [ctx_ok]
+    rw [if_neg (by simp only [B.isNullable, hnl.trans hn]; decide)]
     refine (bind_ok _ _ _).2 ⟨_, ?_, rfl⟩
     simp only [pushNone, ctx_ok]
     exact (bind_ok _ _ _).2 ⟨_, hv, rfl⟩
